@@ -2,9 +2,9 @@ package props
 
 import (
 	"fmt"
+	"go/ast"
 	"go/constant"
 	"go/token"
-	"go/ast"
 	"go/types"
 	"sort"
 	"strings"
